@@ -6,6 +6,7 @@ import (
 	"go/constant"
 	"go/token"
 	"go/types"
+	"gofasta-verif/eval"
 	"sort"
 	"strings"
 
@@ -458,6 +459,96 @@ func c18WidthGuards(c *core.Ctx) {
 			}
 		}
 		c.Ob("T/query-target-width/"+name, ok, f.Pos(), "no comparison of query and target widths that reports a mismatch as an error")
+	}
+	c18WidthGuardsEvaluated(c)
+}
+
+// c18WidthGuardsEvaluated: the two splitters are interpreted (pipeline model, per-query searchers replaced by
+// recorders) on target streams whose first record is narrower / wider than the queries, and on one of equal
+// width: the mismatch must be reported on the error channel, equal widths must not.
+func c18WidthGuardsEvaluated(c *core.Ctx) {
+	recT := namedType(c, "pkg/fastaio", "EncodedFastaRecord")
+	for _, name := range []string{"splitInput", "splitInputN"} {
+		fn := c.LookupFunc("pkg/closest", name)
+		key := "T/query-target-width/" + name + "/evaluated"
+		if fn == nil || recT == nil {
+			c.Und(key, token.NoPos, "UNRESOLVED anchor closest.%s", name)
+			continue
+		}
+		mk := func(id string, w int) eval.Value {
+			r := absValue(recT, id, eval.K(int64(w))).(*eval.StructVal)
+			r.F["ID"] = eval.S(id)
+			vs := make([]eval.Value, w)
+			for i := range vs {
+				vs[i] = eval.K(136)
+			}
+			r.F["Seq"] = eval.NewSlice(vs...)
+			return r
+		}
+		var bad []string
+		for _, tc := range []struct {
+			label   string
+			widths  []int
+			wantErr bool
+		}{{"target narrower than the queries", []int{2, 2}, true}, {"target wider than the queries", []int{5}, true}, {"equal widths", []int{3, 3}, false}} {
+			ev := newEval(c)
+			ev.Pipeline = true
+			ev.NumCPU = 2
+			for _, st := range []string{"findClosest", "findClosestN"} {
+				if sf := c.LookupFunc("pkg/closest", st); sf != nil {
+					ev.Extern[sf.FullName()] = func(ev *eval.Evaluator, pos token.Pos, recv eval.Value, a []eval.Value) eval.Value { return nil }
+				}
+			}
+			ev.Extern["fmt.Fprintf"] = func(ev *eval.Evaluator, pos token.Pos, recv eval.Value, a []eval.Value) eval.Value {
+				return eval.Tuple{eval.K(0), eval.Nil{}}
+			}
+			if v := lookupPkgVar(c, "os", "Stderr"); v != nil {
+				ev.SetGlobal(v, eval.Opaque{Why: "os.Stderr"})
+			}
+			var feed []eval.Value
+			for i, w := range tc.widths {
+				feed = append(feed, mk(fmt.Sprintf("t%d", i), w))
+			}
+			errs := &eval.ChanVal{Name: "err", Queue: true}
+			sig := fn.Type().(*types.Signature)
+			var args []eval.Value
+			for i := 0; i < sig.Params().Len(); i++ {
+				pt := sig.Params().At(i).Type()
+				switch u := pt.Underlying().(type) {
+				case *types.Slice:
+					args = append(args, eval.NewSlice(mk("q0", 3), mk("q1", 3)))
+				case *types.Chan:
+					switch {
+					case types.Identical(u.Elem(), recT):
+						args = append(args, &eval.ChanVal{Name: "in", Feed: feed})
+					case isErrorType(u.Elem()):
+						args = append(args, errs)
+					default:
+						args = append(args, &eval.ChanVal{Name: sig.Params().At(i).Name(), Queue: true})
+					}
+				case *types.Basic:
+					switch {
+					case u.Info()&types.IsString != 0:
+						args = append(args, eval.S("snp"))
+					case u.Info()&types.IsFloat != 0:
+						args = append(args, eval.FConst(-1))
+					default:
+						args = append(args, eval.K(1))
+					}
+				default:
+					args = append(args, eval.Opaque{Why: sig.Params().At(i).Name()})
+				}
+			}
+			if _, err := ev.CallFunc(fn, args...); err != nil {
+				c.Und(key, fn.Pos(), "[%s] cannot evaluate: %v", tc.label, err)
+				bad = nil
+				break
+			}
+			if got := len(errs.Sent) > 0; got != tc.wantErr {
+				bad = append(bad, fmt.Sprintf("%s (queries 3 columns, targets %v): error reported=%v, want %v", tc.label, tc.widths, got, tc.wantErr))
+			}
+		}
+		c.Ob(key, len(bad) == 0, fn.Pos(), "%s", first(bad, 3))
 	}
 }
 
